@@ -228,6 +228,14 @@ func c10Generate(thorough bool) []c10Case {
 		add("unicode-space", "CREATE TABLE t (a, b)", "CREATE INDEX i1 ON t (b"+sp+"DESC)")
 		add("unicode-space", "CREATE TABLE t (a, b)", "CREATE INDEX i1 ON t (b)"+sp+"WHERE a > 1")
 	}
+	// F7: table options after the closing parenthesis (STRICT exists since 3.37; a definition sqlittle cannot
+	// interpret must be rejected, not read as if the options were not there)
+	for _, opt := range []string{" STRICT", " WITHOUT ROWID, STRICT", " STRICT, WITHOUT ROWID", " strict , without rowid"} {
+		for _, def := range []string{"(a INTEGER PRIMARY KEY, b TEXT)", "(a TEXT PRIMARY KEY, b INT UNIQUE)", "(a INT, b TEXT, PRIMARY KEY (b DESC, a))", "(a ANY PRIMARY KEY DESC, b BLOB) "} {
+			add("table-options", "CREATE TABLE t "+def+opt)
+			add("table-options", "CREATE TABLE t "+def+opt, "CREATE INDEX i1 ON t (b DESC)")
+		}
+	}
 	// F6: table names that need quoting: automatic index names are built from the table name
 	for _, tn := range []string{"growth_%", "%s", "100%d", "a b", `q"r`, "T", "sqlite", "t.u", "naïve", "x'y"} {
 		q := QI(tn)
